@@ -9,3 +9,24 @@ def image(ctx: Ctx) -> Image:
         im = Image(ctx.src)
         ctx.src._image = im
     return im
+
+
+def open_enum_without_base(mm, ty, in_union=False):
+    """Names of open enumerations (custom values supported) that occur in the type expression without their base
+    type next to them: such a position only takes members of the enumeration."""
+    k = ty[0]
+    if k == "enum" and ty[1] in mm.enums and mm.enum_open(ty[1]) and not in_union:
+        yield ty[1]
+    elif k == "union":
+        for m_ in ty[1]:
+            if m_[0] == "enum" and m_[1] in mm.enums and mm.enum_open(m_[1]) and ("prim", mm.enum_base(m_[1])) not in ty[1]:
+                yield m_[1]
+            elif m_[0] != "enum":
+                yield from open_enum_without_base(mm, m_, True)
+    elif k in ("seq", "list"):
+        yield from open_enum_without_base(mm, ty[1])
+    elif k == "map":
+        yield from open_enum_without_base(mm, ty[2])
+    elif k == "tup":
+        for x in ty[1]:
+            yield from open_enum_without_base(mm, x)
